@@ -1061,6 +1061,16 @@ Qed.
 Lemma query_char_printable c : query_char c = true -> printable c = true.
 Proof. unfold query_char, printable. intro H. apply andb_true_iff in H as [H _]. exact H. Qed.
 
+Lemma printable_last_seg dirs x :
+  forallb printable (join [c_sl] (dirs ++ [x])) = true -> forallb printable x = true.
+Proof.
+  induction dirs as [|d ds0 IH]; intro H; [exact H|].
+  change ((d :: ds0) ++ [x]) with (d :: (ds0 ++ [x])) in H.
+  rewrite join_cons_ne in H by (destruct ds0; discriminate).
+  rewrite !forallb_app in H. apply andb_true_iff in H as [_ H]. apply andb_true_iff in H as [_ H].
+  now apply IH.
+Qed.
+
 Section Concrete.
   Variable sch host : str.
   Variable hc : N. Variable ht : str.
@@ -1125,13 +1135,17 @@ Section Concrete.
     assert (A : all_vs (if (0 <? c_n c)%Z then qset k_n (VN (Z.to_N (c_n c))) (u_query u) else u_query u) /\
                 query_ok (if (0 <? c_n c)%Z then qset k_n (VN (Z.to_N (c_n c))) (u_query u) else u_query u)).
     { destruct (0 <? c_n c)%Z eqn:E; [|split; assumption]. apply Z.ltb_lt in E. unfold qset. split.
-      - constructor; [|now apply Forall_qdel]. left. split; [reflexivity|]. eexists. split; [reflexivity|]. lia.
-      - constructor; [|now apply Forall_qdel]. split; [apply k_n_ok|apply itoa_ok]. }
+      - apply Forall_app. split; [now apply Forall_qdel|]. constructor; [|constructor].
+        left. split; [reflexivity|]. eexists. split; [reflexivity|]. lia.
+      - apply Forall_app. split; [now apply Forall_qdel|]. constructor; [|constructor].
+        split; [apply k_n_ok|apply itoa_ok]. }
     destruct A as [A1 A2].
     destruct (sends_last (c_kind c) && negb (is_empty last)); [|split; assumption].
     unfold qset. split.
-    - constructor; [|now apply Forall_qdel]. right. split; [intro E; symmetry in E; now apply k_n_neq_last in E|now eexists].
-    - constructor; [|now apply Forall_qdel]. split; [apply k_last_ok|exact Hl].
+    - apply Forall_app. split; [now apply Forall_qdel|]. constructor; [|constructor].
+      right. split; [intro E; symmetry in E; now apply k_n_neq_last in E|now eexists].
+    - apply Forall_app. split; [now apply Forall_qdel|]. constructor; [|constructor].
+      split; [apply k_last_ok|exact Hl].
   Qed.
 
   Theorem concrete_exactly_once last0 fuel :
@@ -1214,4 +1228,252 @@ Section Concrete.
       + constructor; [|constructor]. right. split; [intro E; symmetry in E; now apply k_n_neq_at in E|now eexists].
       + constructor; [|constructor]. split; [apply k_at_ok|exact Ha].
   Qed.
+  (* ---------- every link form, chosen per answer ---------- *)
+
+  Hypothesis Hhostp : forallb printable host = true.
+  Variable fm : nat -> nat.   (* 0: </path?q>  1: <?q>  2: <http://host/path?q>  3: <//host/path?q>  4..: <./last?q> *)
+  (* the last segment of the endpoint path, for the path-relative form *)
+  Variable dirs0 : list str.
+  Variable lastB0 : str.
+  Hypothesis Hsegs0 : segs0 = dirs0 ++ [lastB0].
+  Hypothesis Hlastc : forallb path_char lastB0 = true.
+
+  Definition form_text (f : nat) (P Q : str) : str :=
+    match f with
+    | O => P ++ c_qm :: Q
+    | S O => c_qm :: Q
+    | S (S O) => b "http://" ++ host ++ P ++ c_qm :: Q
+    | S (S (S O)) => c_sl :: c_sl :: host ++ P ++ c_qm :: Q
+    | _ => c_dot :: c_sl :: lastB0 ++ c_qm :: Q
+    end.
+
+  Definition render_f (i : nat) (base tgt : url) : str :=
+    form_text (fm i) (u_path tgt) (enc_pairs (shown (u_query tgt))).
+
+  Lemma form_no_gt f Q : forallb enc_char Q = true -> contains c_gt (form_text f P0 Q) = false.
+  Proof.
+    intro HQ.
+    assert (GP : contains c_gt P0 = false) by (apply (contains_forallb c_gt path_char); [reflexivity|exact HP0c]).
+    assert (GQ : contains c_gt Q = false) by (apply (contains_forallb c_gt enc_char); [reflexivity|exact HQ]).
+    assert (GH : contains c_gt host = false) by (apply (contains_forallb c_gt host_char); [reflexivity|exact Hhostc]).
+    assert (T : contains c_gt (P0 ++ c_qm :: Q) = false).
+    { rewrite contains_app, GP. cbn [contains existsb]. change (c_qm =? c_gt) with false. exact GQ. }
+    destruct f as [|[|[|[|f]]]]; unfold form_text.
+    - exact T.
+    - cbn [contains existsb]. change (c_qm =? c_gt) with false. exact GQ.
+    - rewrite contains_app. change (contains c_gt (b "http://")) with false.
+      rewrite contains_app, GH. exact T.
+    - cbn [contains existsb]. change (c_sl =? c_gt) with false. cbn [orb].
+      change (existsb (fun d => d =? c_gt) (host ++ P0 ++ c_qm :: Q)) with (contains c_gt (host ++ P0 ++ c_qm :: Q)).
+      rewrite contains_app, GH. exact T.
+    - cbn [contains existsb]. change (c_dot =? c_gt) with false. change (c_sl =? c_gt) with false. cbn [orb].
+      change (existsb (fun d => d =? c_gt) (lastB0 ++ c_qm :: Q)) with (contains c_gt (lastB0 ++ c_qm :: Q)).
+      rewrite contains_app. rewrite (contains_forallb c_gt path_char lastB0 eq_refl Hlastc).
+      cbn [contains existsb]. change (c_qm =? c_gt) with false. exact GQ.
+  Qed.
+
+  Lemma form_resolves f base Q :
+    u_path base = P0 -> forallb query_char Q = true ->
+    exists s h, resolve_ref (mkS sch host (u_path base) []) (form_text f P0 Q) = ROk (mkS s h P0 Q).
+  Proof.
+    intros Eb HQ.
+    assert (PQ : forallb printable Q = true) by (apply (forallb_impl query_char printable _ query_char_printable); exact HQ).
+    assert (LPQ : forallb printable (P0 ++ c_qm :: Q) = true).
+    { rewrite forallb_app, HP0p. cbn [forallb]. change (printable c_qm) with true. exact PQ. }
+    destruct f as [|[|[|[|f]]]]; unfold form_text.
+    5:{ (* <./last?q>: the directory of the endpoint path, then its last segment again *)
+        destruct HP0 as (Hne0 & HF0 & EP0). rewrite Hsegs0 in HF0, EP0.
+        apply Forall_app in HF0 as [Hd0 Hl0]. pose proof (Forall_inv Hl0) as Hlb.
+        exists sch, host.
+        rewrite (resolve_dot_relative (mkS sch host (u_path base) []) dirs0 lastB0 lastB0 Q); auto.
+        - now rewrite <- EP0.
+        - cbn [s_path]. now rewrite Eb.
+        - unfold link_ok. cbn [forallb]. change (printable c_dot) with true. change (printable c_sl) with true. cbn [andb].
+          rewrite forallb_app. cbn [forallb]. change (printable c_qm) with true. rewrite PQ.
+          assert (PL : forallb printable lastB0 = true).
+          { rewrite EP0 in HP0p. cbn [forallb] in HP0p. apply andb_true_iff in HP0p as [_ HJ].
+            exact (printable_last_seg dirs0 lastB0 HJ). }
+          now rewrite PL. }
+    - eexists. eexists. apply (resolve_abs_path _ P0 segs0 Q); auto.
+    - exists sch, host. rewrite (resolve_query_only (mkS sch host (u_path base) []) segs0 Q).
+      + cbn [s_scheme s_host s_path]. now rewrite Eb.
+      + cbn [s_path]. now rewrite Eb.
+      + exact HQ.
+      + unfold link_ok. cbn [forallb]. change (printable c_qm) with true. exact PQ.
+    - eexists. eexists. apply (resolve_absolute _ host hc ht P0 segs0 Q); auto.
+      unfold link_ok. rewrite forallb_app. change (forallb printable (b "http://")) with true. cbn [andb].
+      rewrite forallb_app, Hhostp. exact LPQ.
+    - eexists. eexists. apply (resolve_scheme_relative _ host hc ht P0 segs0 Q); auto.
+      unfold link_ok. cbn [forallb]. change (printable c_sl) with true. cbn [andb].
+      rewrite forallb_app, Hhostp. exact LPQ.
+  Qed.
+
+  Lemma resolve_c_form f base tgt :
+    u_path base = P0 -> u_path tgt = P0 -> all_vs (u_query tgt) -> query_ok (u_query tgt) ->
+    resolve_c base (form_text f (u_path tgt) (enc_pairs (shown (u_query tgt)))) = Some tgt.
+  Proof.
+    intros Eb Et Av Qo. pose proof (shown_ok _ Qo) as KV. rewrite Et.
+    destruct (form_resolves f base (enc_pairs (shown (u_query tgt))) Eb (enc_pairs_query_char _ KV)) as (s & h & R).
+    unfold resolve_c. rewrite R. cbn [s_path s_query]. rewrite (parse_enc_pairs _ KV), (vsmap_shown _ Av).
+    f_equal. destruct tgt as [p q]. cbn [u_path u_query] in *. now subst p.
+  Qed.
+
+  Theorem concrete_exactly_once_forms last0 fuel :
+    c_kind c <> KReferrers ->
+    NoDup (map fst L) -> (forall it, In it L -> fst it <> []) ->
+    Forall byte_ok last0 ->
+    (forall i, (Z.of_N (d_doc_len (ds i)) <= eff_limit (c_limit c))%Z) ->
+    (length (after last0 L) < fuel)%nat ->
+    let t := loop (reg_serve (c_kind c) cu (fun _ p => p) vis L cap ds render_f trailer) resolve_c (fun _ => false) c
+                  fuel 0 0 (mkUrl P0 []) last0 in
+    t_out t = Done /\
+    concat (t_pages t) = filter vis (after last0 L) /\
+    (length (t_reqs t) <= S (length (after last0 L)))%nat.
+  Proof.
+    intros K Hnd Hne Hl Hfit Hfuel.
+    apply (listing_exactly_once_inv L cap ds render_f trailer resolve_c c cu (fun _ p => p) vis inv_c P0 last0 fuel);
+      auto.
+    - intros i base x Hi Hx. destruct (target_inv i base x Hi Hx) as (Ep & Av & Qo).
+      unfold render_f. rewrite Ep. apply form_no_gt. apply enc_pairs_enc_char. now apply shown_ok.
+    - intros i base x Hi Hx. destruct (target_inv i base x Hi Hx) as (Ep & Av & Qo).
+      destruct Hi as (Eb & _ & _). unfold render_f. now apply resolve_c_form.
+    - intros i base x Hi Hx. apply mk_request_inv; [|constructor].
+      pose proof (target_inv i base x Hi Hx) as T. exact T.
+    - apply mk_request_inv; [|exact Hl]. split; [reflexivity|]. split; constructor.
+  Qed.
+
+  Theorem concrete_referrers_forms fuel :
+    c_kind c = KReferrers ->
+    NoDup (map fst L) -> (forall it, In it L -> fst it <> []) ->
+    Forall byte_ok (c_at c) ->
+    (forall i, (Z.of_N (d_doc_len (ds i)) <= eff_limit (c_limit c))%Z) ->
+    (forall i, qget k_at (d_extra (ds i)) = None) ->
+    (length L < fuel)%nat ->
+    let t := loop (reg_serve KReferrers cu (fun _ p => p) vis L cap ds render_f trailer) resolve_c (fun _ => false) c
+                  fuel 0 0 (mkUrl P0 (referrers_query (c_at c))) [] in
+    t_out t = Done /\
+    concat (t_pages t) = filter_referrers (filter vis L) (c_at c) /\
+    (length (t_reqs t) <= S (length L))%nat.
+  Proof.
+    intros K Hnd Hne Ha Hfit Hex Hfuel.
+    apply (referrers_exactly_once_inv L cap ds render_f trailer resolve_c c cu (fun _ p => p) vis inv_c P0 fuel);
+      auto.
+    - intros i base x Hi Hx. destruct (target_inv i base x Hi Hx) as (Ep & Av & Qo).
+      unfold render_f. rewrite Ep. apply form_no_gt. apply enc_pairs_enc_char. now apply shown_ok.
+    - intros i base x Hi Hx. destruct (target_inv i base x Hi Hx) as (Ep & Av & Qo).
+      destruct Hi as (Eb & _ & _). unfold render_f. now apply resolve_c_form.
+    - intros i base x Hi Hx. apply mk_request_inv; [|constructor].
+      pose proof (target_inv i base x Hi Hx) as T. exact T.
+    - apply mk_request_inv; [|constructor]. split; [reflexivity|]. unfold referrers_query.
+      destruct (is_empty (c_at c)); [split; constructor|]. split.
+      + constructor; [|constructor]. right. split; [intro E; symmetry in E; now apply k_n_neq_at in E|now eexists].
+      + constructor; [|constructor]. split; [apply k_at_ok|exact Ha].
+  Qed.
 End Concrete.
+
+(* ---------- the raw request IS the model request (typed reading), not only lookup-equivalent ---------- *)
+
+Lemma filter_filter {A} (f g : A -> bool) l : filter f (filter g l) = filter (fun x => g x && f x) l.
+Proof.
+  induction l as [|x l IH]; [reflexivity|]. simpl. destruct (g x); simpl; [destruct (f x); now rewrite IH|exact IH].
+Qed.
+
+Lemma qdel_app k q1 q2 : qdel k (q1 ++ q2) = qdel k q1 ++ qdel k q2.
+Proof. induction q1 as [|[k' v] q1 IH]; simpl; [reflexivity|]. destruct (str_eqb k' k); simpl; now rewrite IH. Qed.
+
+Lemma qdel_vsmap k l : qdel k (vsmap l) = vsmap (filter (fun kv => negb (str_eqb (fst kv) k)) l).
+Proof.
+  induction l as [|[k' v] l IH]; [reflexivity|]. unfold vsmap in *. cbn [map filter fst qdel].
+  destruct (str_eqb k' k); cbn [negb]; [exact IH|]. cbn [map fst]. now rewrite IH.
+Qed.
+
+Definition typed_query (raw : str) : query := vsmap (parse_query_lenient raw).
+
+Theorem request_query_exact c p raw last :
+  Forall byte_ok last -> (c_n c < 10 ^ 40)%Z ->
+  typed_query (request_query c raw last) = u_query (mk_request c (mkUrl p (typed_query raw)) last).
+Proof.
+  intros Hl Hn. unfold request_query, page_params, mk_request, typed_query. cbn [u_query].
+  assert (TN : forall n, n < 10 ^ 40 -> tval (k_n, itoa n) = VN n).
+  { intros n H. unfold tval. cbn [fst snd]. rewrite str_eqb_refl. now rewrite (atoi_itoa n H). }
+  assert (TL : tval (k_last, last) = VS last).
+  { unfold tval. cbn [fst snd]. now rewrite (str_eqb_neq k_last k_n) by (intro E; symmetry in E; now apply k_n_neq_last in E). }
+  destruct (0 <? c_n c)%Z eqn:E0; destruct (sends_last (c_kind c) && negb (is_empty last)); cbn [app].
+  - apply Z.ltb_lt in E0.
+    rewrite set_query_params_spec by (repeat constructor; try apply k_n_ok; try apply itoa_ok; try apply k_last_ok; assumption).
+    unfold qset. rewrite qdel_app. cbn [qdel]. rewrite (str_eqb_neq k_n k_last) by exact k_n_neq_last.
+    rewrite !qdel_vsmap. rewrite filter_filter. unfold vsmap at 1. rewrite map_app. cbn [map fst].
+    rewrite <- app_assoc. f_equal.
+    + unfold vsmap. f_equal. apply filter_ext. intros [k' v']. unfold not_set. cbn [existsb fst].
+      rewrite orb_false_r. now rewrite negb_orb.
+    + cbn [app]. rewrite TN by lia. repeat f_equal; try exact TL.
+  - apply Z.ltb_lt in E0.
+    rewrite set_query_params_spec by (repeat constructor; try apply k_n_ok; apply itoa_ok).
+    unfold qset. rewrite qdel_vsmap. unfold vsmap at 1. rewrite map_app. cbn [map fst]. f_equal.
+    + unfold vsmap. f_equal. apply filter_ext. intros [k' v']. unfold not_set. cbn [existsb fst]. now rewrite orb_false_r.
+    + rewrite TN by lia. reflexivity.
+  - rewrite set_query_params_spec by (repeat constructor; try apply k_last_ok; assumption).
+    unfold qset. rewrite qdel_vsmap. unfold vsmap at 1. rewrite map_app. cbn [map fst]. f_equal.
+    unfold vsmap. f_equal. apply filter_ext. intros [k' v']. unfold not_set. cbn [existsb fst]. now rewrite orb_false_r.
+  - reflexivity.
+Qed.
+
+(* ---------- refinement without "answers alike": the server reads the raw query itself ---------- *)
+
+Section ExactRefinement.
+  Variable sch host : str.
+  Variable serve : nat -> url -> response.       (* any registry on association lists *)
+  Variable resolve : url -> str -> option url.
+  Variable cb_fail : nat -> bool.
+  Variable c : cfg.
+  Variable Inv : sreq -> Prop.                   (* an invariant of the raw requests of the run *)
+  Hypothesis Hn : (c_n c < 10 ^ 40)%Z.
+
+  (* the typed reading of a raw request; the same registry serving raw requests *)
+  Definition typed_req (rs : sreq) : url := mkUrl (sr_path rs) (typed_query (sr_query rs)).
+  Definition serve_typed (i : nat) (rs : sreq) : response := serve i (typed_req rs).
+
+  (* net/url as modelled and the abstract resolver agree on the links served *)
+  Hypothesis Hlink : forall i rs t,
+    Inv rs -> parse_link (rs_link (serve i (typed_req rs))) = LTarget t ->
+    match resolve_ref (mkS sch host (sr_path rs) (sr_query rs)) t, resolve (typed_req rs) t with
+    | ROk u, Some u' => s_path u <> [] /\ u' = mkUrl (s_path u) (typed_query (s_query u)) /\
+                        Inv (mkSR (s_path u) (request_query c (s_query u) []))
+    | RErr, None => True
+    | _, _ => False
+    end.
+
+  Theorem loop_s_exact :
+    forall fuel i k p raw last,
+      Inv (mkSR p (request_query c raw last)) -> Forall byte_ok last ->
+      exists ts, loop_s sch host serve_typed cb_fail c fuel i k p raw last = Some ts /\
+                 let t := loop serve resolve cb_fail c fuel i k (mkUrl p (typed_query raw)) last in
+                 st_pages ts = t_pages t /\ st_out ts = t_out t /\ map typed_req (st_reqs ts) = t_reqs t.
+  Proof.
+    induction fuel as [|fuel IH]; intros i k p raw last Hi Hl.
+    { eexists. split; [reflexivity|]. simpl. auto. }
+    cbn [loop_s loop]. cbv zeta.
+    set (rs := mkSR p (request_query c raw last)) in *.
+    set (rq := mk_request c (mkUrl p (typed_query raw)) last).
+    assert (ER : typed_req rs = rq).
+    { unfold typed_req, rs, rq. cbn [sr_path sr_query]. rewrite (request_query_exact c p raw last Hl Hn). reflexivity. }
+    change (serve_typed i rs) with (serve i (typed_req rs)). rewrite ER.
+    destruct (handle c (serve i rq)) as [e|page] eqn:H.
+    { eexists. split; [reflexivity|]. simpl. now rewrite ER. }
+    destruct (delivered c page && cb_fail k).
+    { eexists. split; [reflexivity|]. simpl. now rewrite ER. }
+    destruct (parse_link (rs_link (serve i rq))) as [| | |tx] eqn:PL;
+      try (eexists; split; [reflexivity|]; cbn [st_pages st_out st_reqs t_pages t_out t_reqs map]; rewrite ER; auto).
+    rewrite <- ER in PL. pose proof (Hlink i rs tx Hi PL) as HL. rewrite ER in HL.
+    destruct (resolve_ref (mkS sch host (sr_path rs) (sr_query rs)) tx) as [u| |] eqn:RR;
+      destruct (resolve rq tx) as [u'|] eqn:RA; try contradiction.
+    - destruct HL as (Hne & Eu & Hi'). subst u'.
+      destruct (IH (S i) (if delivered c page then S k else k) (s_path u) (s_query u) [] Hi' ltac:(constructor))
+        as (ts & E & A & B0 & D).
+      destruct (s_path u) eqn:SP; [contradiction|]. rewrite <- SP in *.
+      rewrite E. eexists. split; [reflexivity|].
+      unfold prepend. cbn [st_pages st_out st_reqs t_pages t_out t_reqs map].
+      rewrite A, B0, D, ER. auto.
+    - eexists. split; [reflexivity|]. simpl. now rewrite ER.
+  Qed.
+End ExactRefinement.
